@@ -162,6 +162,14 @@ class Harness(cm.BaseA):
                 if full:
                     ev.append(["distribute", "w", "S", col, "A", ["B01"], {"volume": J(x)}])
             if full:
+                # the same destination listed twice / two virtual rows of one trough column (one Fluent position):
+                # the source is charged once per listed well
+                for x in (av / 2, na(av / 2), av / 4):
+                    if x >= 0 and x == x:
+                        ev.append(["distribute", "w", "S", col, "A", ["A01", "A01"], {"volume": J(x)}])
+                        other = ["A02", "B02"] if col == 0 else ["A01", "B01"]
+                        ev.append(["distribute", "ws", "S", col, "S", other, {"volume": J(x)}])
+                        ev.append(["distribute", "w", "S", col, "S", other, {"volume": J(x)}])
                 ev.append(["distribute", "w", "S", col, "S", ["A02" if col == 0 else "A01"], {"volume": J(av)}])
                 ev.append(["distribute", "w", "S", col, "A", ["A01"], {"volume": J(INF)}])
         # EVO script commands
@@ -276,7 +284,7 @@ class Harness(cm.BaseA):
             dcells = [geos[dl].real(w) for w in dws]
             n = len(dcells)
             sc = (0, col)
-            if vol <= config["worklists"]["w"]["max_volume"]:
+            if vol <= config["worklists"][ev[1]]["max_volume"]:
                 tot = vol * n
                 c = float(pre[sl][sc])
                 xe_bad = vol == INF or Fraction(c) - Fraction(vol) * n < Fraction(mn)
